@@ -34,8 +34,12 @@ func tappend(dst, src []value) []value {
 	n := len(dst)
 	if n+len(src) <= cap(dst) {
 		r := dst[:n+len(src)]
+		tmp := make([]value, len(src))
 		for i, v := range src {
-			tstore(&r[n+i], v)
+			tmp[i] = copyVal(v) // src may overlap dst
+		}
+		for i, v := range tmp {
+			assignVal(&r[n+i], v)
 		}
 		return r
 	}
@@ -49,9 +53,59 @@ func tappend(dst, src []value) []value {
 		nc = 4
 	}
 	r := make([]value, n+len(src), nc)
-	copy(r, dst)
-	copy(r[n:], src)
+	for i, v := range dst {
+		r[i] = copyVal(v)
+	}
+	for i, v := range src {
+		r[n+i] = copyVal(v)
+	}
 	return r
+}
+
+// copyVal copies aggregate values (the interpreter represents structs and arrays
+// as Go slices, so a plain assignment would alias them).
+func copyVal(v value) value {
+	switch x := v.(type) {
+	case structure:
+		c := make(structure, len(x))
+		for i, e := range x {
+			c[i] = copyVal(e)
+		}
+		return c
+	case array:
+		c := make(array, len(x))
+		for i, e := range x {
+			c[i] = copyVal(e)
+		}
+		return c
+	}
+	return v
+}
+
+// assignVal stores src into *dst in place (field by field for aggregates, so
+// that pointers into the destination stay valid), through the trail.
+func assignVal(dst *value, src value) {
+	switch x := src.(type) {
+	case structure:
+		if d, ok := (*dst).(structure); ok && len(d) == len(x) {
+			for i := range x {
+				assignVal(&d[i], x[i])
+			}
+			return
+		}
+		tstore(dst, copyVal(src))
+		return
+	case array:
+		if d, ok := (*dst).(array); ok && len(d) == len(x) {
+			for i := range x {
+				assignVal(&d[i], x[i])
+			}
+			return
+		}
+		tstore(dst, copyVal(src))
+		return
+	}
+	tstore(dst, src)
 }
 
 func tcopy(dst, src []value) int {
@@ -64,9 +118,11 @@ func tcopy(dst, src []value) int {
 	}
 	// overlapping copies: snapshot the source first
 	tmp := make([]value, n)
-	copy(tmp, src[:n])
 	for i := 0; i < n; i++ {
-		tstore(&dst[i], tmp[i])
+		tmp[i] = copyVal(src[i])
+	}
+	for i := 0; i < n; i++ {
+		assignVal(&dst[i], tmp[i])
 	}
 	return n
 }
